@@ -131,6 +131,19 @@ func allocShapes(x *Ctx) []shape {
 			shape{fmt.Sprintf("long-needle-%d/short-haystack", m), []byte("ab"), nd, 'b', 'B'},
 		)
 	}
+	// second arguments (needle / chars / affix) longer than the runtime's 32-byte temporary buffer and not
+	// ASCII, against haystacks more than twice / less than twice as long: every strategy of the Any family and
+	// the affix functions with an argument that a hidden string<->[]byte conversion would have to copy
+	for _, m := range []int{33, 40, 64, 200} {
+		cyr := rep("щжяю", (m+7)/8)
+		for _, k := range []int{1, 3} {
+			hs := append(rep("the quick brown fox ", (k*len(cyr))/20+1), "Щ"...)
+			out = append(out,
+				shape{fmt.Sprintf("long-nonascii-arg-%d/haystack-x%d", m, k), hs, cyr, 'Щ', 0x89},
+				shape{fmt.Sprintf("long-nonascii-arg-%d/haystack-x%d/no-match", m, k), hs[:len(hs)-2], append(append([]byte{}, cyr...), "k"...), 'ф', 0x84},
+			)
+		}
+	}
 	// brute force region (len(s) <= 16) with folds
 	out = append(out, shape{"brute-force-folds", []byte("xxKſßx"), []byte("ksẞ"), 'ſ', 's'},
 		shape{"any-ascii", []byte("the quick brown fox"), []byte("XYZq"), 'Q', 'Q'},
@@ -236,6 +249,26 @@ func init() {
 				jobs = append(jobs, job{s: sh.s, t: sh.t, r: sh.r, c: sh.c})
 			}
 		}
+		// jobs that lean on the shared folding tables: for every orbit with three or more members, each member
+		// at the END of a long caseless haystack (beyond any "large input" threshold), searched for through each
+		// other member, so that concurrent goroutines look up the same table rows for different haystacks
+		for r := rune(0x80); r <= 0x1FFFF; r++ {
+			if orbitMin(r) != r {
+				continue
+			}
+			o := orbitOf(r)
+			if len(o) < 3 {
+				continue
+			}
+			for _, m := range o {
+				hs := append(bytes.Repeat([]byte("0123456789 "), 190), string(m)...)
+				for _, q := range o {
+					if q != m {
+						jobs = append(jobs, job{s: hs, t: []byte(string(q)), r: q, c: '9'})
+					}
+				}
+			}
+		}
 		// sequential results (twice: determinism), with argument snapshots
 		for i := range jobs {
 			j := &jobs[i]
@@ -274,6 +307,14 @@ func init() {
 		for g, b := range bad {
 			if b > 0 {
 				x.relFail("relation", "all", nil, fmt.Sprintf("goroutine %d: %d concurrent calls returned a result different from the sequential one", g, b))
+			}
+		}
+		// shared state must be as it was: the sequential results once more
+		for i := range jobs {
+			j := &jobs[i]
+			if callAll(strView(j.s), strView(j.t), j.s, j.t, j.r, j.c) != j.want {
+				x.relFail("relation", "all", &Case{Fn: "Index", S: j.s, T: j.t}, "after the concurrent run the same call returns a different result: shared state was modified")
+				break
 			}
 		}
 		x.note("jobs: %d, goroutines: %d, every exported function of both packages per job, strings and slices share backing arrays; race detector: %v", len(jobs), G, raceEnabled)
